@@ -403,3 +403,84 @@ package cache
 //@   like (*shardedMap).ExpireAll subst TraitEntry=TraitEntryOf[V]
 //@ func (*shardedMapOf[V]).DeleteAll
 //@   like (*shardedMap).DeleteAll subst TraitEntry=TraitEntryOf[V]
+
+// ---------------------------------------------------------------------------------------------------
+// sync_map.go: SyncMap over the assumed sync.Map contract (C07, C09, C11, C18)
+// ---------------------------------------------------------------------------------------------------
+
+//@ def sHas(c, s) := smHas(c.data, s)
+//@ def sGet(c, s) := smGet(c.data, s)
+//@ def sEnt(c, s) := payload(smGet(c.data, s), *TraitEntry)
+//@ def sRepOK(c) := c.t != nil && smValuesAre(c.data, *TraitEntry)
+//@ def sMapKept(c) := forall s string :: sHas(c, s) == old(sHas(c, s)) && sGet(c, s) == old(sGet(c, s))
+
+//@ func (*syncMap).Read
+//@   props C07 C09 C18
+//@   requires ctx != nil && sRepOK(c)
+//@   let kb := bytes(key)
+//@   let e := old(sEnt(c, kb))
+//@   let found := old(sHas(c, kb))
+//@   ensures [C07.sm.read.skip] skipRead(ctx) ==> result0 == nil && result1 == ErrNotFound && noMetric()
+//@   ensures [C07.sm.read.miss] !skipRead(ctx) && !found ==> result0 == nil && result1 == ErrNotFound
+//@   ensures [C07.sm.read.hit] !skipRead(ctx) && found && !isExpiredAt(e, now(1)) ==> result0 == e.V && result1 == nil
+//@   ensures [C07.sm.read.expired] !skipRead(ctx) && found && isExpiredAt(e, now(1)) ==> result0 == nil
+//@       && dyntype(result1, errExpired) && payload(result1, errExpired).entry == e && errIs(result1, ErrExpired)
+//@   ensures [C07.sm.read.frame] sMapKept(c) && entriesKept()
+//@   ensures [C18.sm.read.miss] c.t.Stat != nil && !skipRead(ctx) && !found ==> onlyMetric(MetricMiss, 1.0)
+//@   ensures [C18.sm.read.hit] c.t.Stat != nil && !skipRead(ctx) && found && !isExpiredAt(e, now(1)) ==> onlyMetric(MetricHit, 1.0)
+//@   ensures [C18.sm.read.expired] c.t.Stat != nil && !skipRead(ctx) && found && isExpiredAt(e, now(1)) ==> onlyMetric(MetricExpired, 1.0)
+//@   modifies H|TraitEntry|.C G|metric G|cnt|* G|arg|* G|res|* G|clock G|clk G|nclk
+
+//@ func (*syncMap).Write
+//@   props C07 C09 C10 C18
+//@   requires ctx != nil && sRepOK(c)
+//@   requires c.t.Config.ExpirationJitter <= 1.0
+//@   requires abs(ttlOf(ctx) != 0 ? ttlOf(ctx) : c.t.Config.TimeToLive) <= 1577880000000000000
+//@   requires c.t.expirationsSet >= 0 && c.t.expirationsSet < 4611686018427387904
+//@   let kb := old(bytes(k))
+//@   let J := c.t.Config.ExpirationJitter
+//@   let unl := ttlOf(ctx) == 0 && c.t.Config.TimeToLive == UnlimitedTTL
+//@   let T := ttlOf(ctx) != 0 ? ttlOf(ctx) : c.t.Config.TimeToLive
+//@   ensures [C07.sm.write.ok] result == nil
+//@   ensures [C07.sm.write.stored] sHas(c, kb) && dyntype(sGet(c, kb), *TraitEntry) && sEnt(c, kb) != nil
+//@       && bytes(sEnt(c, kb).K) == kb && sEnt(c, kb).V == v
+//@   ensures [C07.sm.write.others] forall s string :: s != kb ==> sHas(c, s) == old(sHas(c, s)) && sGet(c, s) == old(sGet(c, s))
+//@   ensures [C07.sm.write.entries] entriesKept()
+//@   ensures [C09.sm.write.copy] fresh(sEnt(c, kb)) && fresh(base(sEnt(c, kb).K))
+//@   ensures [C10.sm.write.never] unl ==> sEnt(c, kb).E == 0
+//@   ensures [C10.sm.write.exact] !unl && J <= 0.0 ==> sEnt(c, kb).E == (T == 0 ? 0 : now(1) + T)
+//@   ensures [C10.sm.write.jitter] !unl && J > 0.0 && sEnt(c, kb).E != 0 ==>
+//@       abs(real(sEnt(c, kb).E - now(1)) - real(T)) <= abs(real(T)) * J / 2.0 + 1.0 + abs(real(T)) * J / 1125899906842624.0
+//@   ensures [C18.sm.write.metric] c.t.Stat != nil ==> onlyMetric(MetricWrite, 1.0)
+//@   ensures [C07.sm.write.repok] sRepOK(c)
+//@   modifies H|TraitEntry|* E|byte|* SM|* H|Trait|.expirationsSet G|metric G|cnt|* G|arg|* G|res|* G|clock G|clk G|nclk G|rand
+
+// Delete: "removes a cache entry with a given key and returns ErrNotFound for non-existent keys" (cache.go, Deleter).
+
+//@ func (*syncMap).Delete
+//@   props C07 C15 C18
+//@   requires ctx != nil && sRepOK(c)
+//@   let kb := bytes(key)
+//@   let found := old(sHas(c, kb))
+//@   ensures [C07.sm.delete.notfound] !found <==> result == ErrNotFound
+//@   ensures [C07.sm.delete.found] found <==> result == nil
+//@   ensures [C07.sm.delete.removed] !sHas(c, kb)
+//@   ensures [C07.sm.delete.others] forall s string :: s != kb ==> sHas(c, s) == old(sHas(c, s)) && sGet(c, s) == old(sGet(c, s))
+//@   ensures [C18.sm.delete.metric] c.t.Stat != nil && found ==> onlyMetric(MetricDelete, 1.0)
+//@   ensures [C18.sm.delete.none] c.t.Stat == nil || !found ==> noMetric()
+//@   modifies SM|* G|metric G|cnt|* G|arg|* G|res|*
+//@   replay smdelete
+
+//@ func (*syncMap).deleteExpired
+//@   props C11
+//@   requires sRepOK(c)
+//@   requires abs(before) < 4611686018427387904
+//@   ensures [C11.sm.exact] forall s string :: sHas(c, s) == (old(sHas(c, s)) && !longExpired(old(sEnt(c, s)), before))
+//@   ensures [C11.sm.survivors] (forall s string :: sHas(c, s) ==> sGet(c, s) == old(sGet(c, s))) && entriesKept()
+//@   range 1 invariant [C11.sm.visited] forall s string :: visited(s) ==>
+//@       sHas(c, s) == (old(sHas(c, s)) && !longExpired(old(sEnt(c, s)), before))
+//@   range 1 invariant [C11.sm.unvisited] forall s string :: !visited(s) ==> sHas(c, s) == old(sHas(c, s))
+//@   range 1 invariant [C11.sm.get] forall s string :: sHas(c, s) ==> sGet(c, s) == old(sGet(c, s))
+//@   range 1 invariant [C11.sm.entries] entriesKept() && smValuesAre(c.data, *TraitEntry)
+//@   modifies SM|*
+//@   replay janitor before=before backend:=syncmap
